@@ -66,6 +66,7 @@ type Explorer struct {
 	Canary     bool   // every Assert is replaced by Assert(false) at its first execution on a path
 	samples    []string
 	defCount   int
+	mapOrders  int
 }
 
 // X is the explorer driving the current path (one per process).
@@ -92,6 +93,9 @@ func (e *Explorer) emit(l string) {
 
 // MapOrderAll makes every range over a map explore all iteration orders.
 var MapOrderAll bool
+
+// MapOrderMode: 0 insertion order, 1 reversed, 2 all permutations (fork), 3 rotated by one.
+var MapOrderMode int
 
 var DebugDecide io.Writer
 
